@@ -75,7 +75,14 @@ def declared_types(leaf):
 
 
 def is_null(v):
-    return v is None or (isinstance(v, float) and math.isnan(v))
+    if v is None or (isinstance(v, float) and math.isnan(v)):
+        return True
+    try:
+        import pandas
+
+        return v is pandas.NA or v is pandas.NaT
+    except Exception:
+        return False
 
 
 def frame_values(d, col):
@@ -159,6 +166,21 @@ def gen_frame(rng):
             use_polars = False
     else:
         d = pandas.DataFrame(data)
+        # Pandas also carries missing values as pd.NA (nullable extension dtypes) and pd.NaT (datetimes)
+        if rng.random() < 0.35:
+            for c, kind in zip(cols, [k.rstrip("?") for k in classes]):
+                try:
+                    if kind == "int":
+                        d[c] = pandas.array(data[c], dtype="Int64")
+                    elif kind == "str":
+                        d[c] = pandas.array(data[c], dtype="string")
+                    elif kind == "bool":
+                        d[c] = pandas.array(data[c], dtype="boolean")
+                    elif kind == "allnull" and rng.random() < 0.5:
+                        d[c] = pandas.Series([pandas.NaT] * nrows, dtype="datetime64[ns]")
+                except Exception:
+                    pass
+            classes = [k + "+NA" for k in classes]
     return d, ("pl" if use_polars else "pd") + ":" + str(min(nrows, 2)) + ":" + ",".join(sorted(classes))
 
 
@@ -205,6 +227,7 @@ def one_case(b, ds, rng):
         kwargs = {k: values[k] for k in ("b", "c") if k != dropped}
         supplied = {"a", "b", "c"} - {dropped}
     switch_on = rng.random() < 0.85
+    decorated_while_on = rng.random() < 0.7  # the switch is read at call time, not when the decorator is applied
     # reference verdict
     arg_bad = any((k not in supplied) or value_violates(sp, values[k]) for k, sp in specs.items())
     ret_bad = value_violates(ret_spec, ret_value)
@@ -219,11 +242,18 @@ def one_case(b, ds, rng):
     case = {
         "specs": repr(specs), "return_spec": repr(ret_spec), "mode": mode, "switch_on": switch_on,
         "values": {k: repr(v) for k, v in values.items()}, "return_value": repr(ret_value),
-        "expect_raise": expect_raise,
+        "expect_raise": expect_raise, "decorated_while_on": decorated_while_on,
     }
     b.evaluation()
     try:
-        wrapped = ds.SchemaRaises(specs, return_spec=ret_spec)(target)
+        if decorated_while_on:
+            sw.on()
+        else:
+            sw.off()
+        try:
+            wrapped = ds.SchemaRaises(specs, return_spec=ret_spec)(target)
+        finally:
+            sw.on()
     except Exception as ex:
         b.violation("decorator-construction-raised", f"{case}: {exc_str(ex)}", case=case,
                     finding_key=classify(specs, ret_spec))
@@ -244,7 +274,7 @@ def one_case(b, ds, rng):
     finally:
         sw.on()
     b.count("verdicts", "expect_raise" if expect_raise else "expect_return")
-    b.count("switch", "on" if switch_on else "off")
+    b.count("switch", ("on" if switch_on else "off") + (",decorated-on" if decorated_while_on else ",decorated-off"))
     err = None
     if expect_raise:
         if raised is None:
@@ -327,6 +357,10 @@ def inconclusive(counters, sigs, tier):
     v = counters.get("verdicts", {})
     if v.get("expect_raise", 0) < 50 or v.get("expect_return", 0) < 50:
         return "verdict classes not both exercised: %s" % v
-    if counters.get("switch", {}).get("off", 0) < 20:
+    sw = counters.get("switch", {})
+    if sum(v_ for k, v_ in sw.items() if k.startswith("off")) < 20:
         return "switch-off path not exercised"
+    for k in ("on,decorated-off", "on,decorated-on", "off,decorated-on"):
+        if sw.get(k, 0) < 20:
+            return f"switch history {k} exercised {sw.get(k, 0)} times"
     return None
